@@ -361,9 +361,13 @@ class Discharger:
             status = "vacuous" if res == "unsat" else "covered"
             by = "z3new"
         else:
-            for which in self.solvers:
-                res, dt = self.run_solver(which, path, self.timeout_s)
-                tried[which] = (res, round(dt, 3))
+            # staged portfolio: short budgets first (most obligations take milliseconds), full budget afterwards
+            T = self.timeout_s
+            schedule = [("z3new", max(2, T // 5)), ("cvc5", max(3, T // 2)), ("z3new", T), ("cvc5", T), ("z3old", T)]
+            schedule = [(w, t) for w, t in schedule if w in self.solvers]
+            for which, budget in schedule:
+                res, dt = self.run_solver(which, path, budget)
+                tried["%s@%ds" % (which, budget)] = (res, round(dt, 3))
                 if res == "unsat":
                     status, by = "discharged", which
                     break
